@@ -999,6 +999,17 @@ fn many_members() -> Vec<BuildCase> {
     // beyond 64 KiB in total, and one member beyond 64 KiB
     lists.push((0..70).map(|_| app(250)).collect());
     lists.push(vec![rr(1), app(17_000), bye(2)]);
+    // a member of exactly the largest packet size (65536 words, length field 0xffff) and one word below it,
+    // first / in the middle / last / alone
+    for words in [65_533usize, 65_532] {
+        lists.push(vec![rr(1), app(words), bye(2)]);
+        lists.push(vec![app(words), bye(3)]);
+        lists.push(vec![bye(4), app(words)]);
+        lists.push(vec![app(words)]);
+    }
+    lists.push(vec![rr(7), PacketSpec::Unknown(UnknownSpec { pt: 222, count: 3, data: vec![0x5a; 262_140], padding: 0 }), bye(8)]);
+    // the largest size reached through padding: 12 + 4 * 65531 + 8 = 262144
+    lists.push(vec![bye(5), PacketSpec::App(AppSpec { ssrc: 5, subtype: 1, name: "many".into(), data: vec![0x61; 4 * 65_531], padding: 8 })]);
     // nesting: 40 nested compounds of 3 members each, and a chain nested 6 deep
     lists.push((0..40).map(|k| PacketSpec::Compound(vec![rr(k), bye(k), app(2)])).collect());
     let mut deep = PacketSpec::Compound(vec![bye(9)]);
@@ -1011,14 +1022,19 @@ fn many_members() -> Vec<BuildCase> {
         let how = How { wrap: i % 2 == 1, probe: i % 3 == 0, ..How::default() };
         // as it is; last member padded (legal); a middle member padded (must be rejected)
         out.push(BuildCase { spec: PacketSpec::Compound(l.clone()), how, salt: i as u64 });
+        // (packets beyond 65536 words are the class of a listed finding and are built by C16's dedicated leg only:
+        // a member that is already within 8 bytes of the limit, or padded, keeps its padding)
+        let room = |m: &PacketSpec| m.leaves().iter().all(|x| ref_size(x) + 8 <= 262_144 && x.padding() == 0);
         let mut last_padded = l.clone();
         if let Some(m) = last_padded.last_mut() {
-            m.set_padding(8);
+            if room(m) {
+                m.set_padding(8);
+                out.push(BuildCase { spec: PacketSpec::Compound(last_padded), how, salt: i as u64 });
+            }
         }
-        out.push(BuildCase { spec: PacketSpec::Compound(last_padded), how, salt: i as u64 });
         let mut mid_padded = l;
         let at = mid_padded.len() / 2;
-        if mid_padded.len() >= 2 {
+        if mid_padded.len() >= 2 && room(&mid_padded[at]) {
             mid_padded[at].set_padding(4);
             out.push(BuildCase { spec: PacketSpec::Compound(mid_padded), how, salt: i as u64 });
         }
